@@ -196,6 +196,10 @@ def atoms_match(atoms, req):
     for r in req:
         kind = r[0]
         ok = False
+        if kind == "lit_or_const":
+            if not any(a[0] in ("lit", "const") for a in atoms):
+                return False
+            continue
         if kind == "len":
             ok = any(a[0] == "len" or (a[0] in ("call", "callres") and re.search(r"::len$", a[1])) for a in atoms)
             if not ok:
